@@ -148,8 +148,33 @@ class SourceModule:
 
     def func(self, qualname):
         if qualname not in self.funcs:
+            r = self.resolve_method(qualname)
+            if r is not None:
+                return self.funcs[r]
             raise Unsupported("function %s not found in %s (anchor lost)" % (qualname, self.relpath))
         return self.funcs[qualname]
+
+    def resolve_method(self, qualname):
+        """'Cls.meth' where Cls inherits meth: the definition Python's method resolution finds among the classes of this module
+        (depth-first, left to right - enough for the single-inheritance-plus-mixins hierarchies met here)."""
+        parts = qualname.split(".")
+        if len(parts) != 2 or parts[0] not in self.classes:
+            return None
+        seen = set()
+
+        def walk(cname):
+            if cname in seen or cname not in self.classes:
+                return None
+            seen.add(cname)
+            if "%s.%s" % (cname, parts[1]) in self.funcs:
+                return "%s.%s" % (cname, parts[1])
+            for b in self.class_bases(cname):
+                r = walk(b)
+                if r is not None:
+                    return r
+            return None
+
+        return walk(parts[0])
 
     def segment_sha(self, node):
         seg = ast.get_source_segment(self.text, node) or ast.unparse(node)
